@@ -159,7 +159,7 @@ class World:
         state.dawgie.pl.resources.last_runid = lambda: 0
         state.dawgie.pl.resources.distribution = lambda m: {}
         self.real_build = schedule.build
-        schedule.build = lambda *a: self.calls.append('schedule.build')
+        schedule.build = self._build
         schedule.periodics = lambda *a: self.calls.append('schedule.periodics')
         schedule.next_job_batch = lambda: []  # job release is C01-C04's subject; the queue here holds stand-in nodes
         # submission path: real Defer/Process, git and mail stubbed
@@ -170,7 +170,7 @@ class World:
         tools_submit.mail_out = lambda *a, **k: None
         self.edges = self._edges()
         self.fsm = None
-        self.level = 0
+        self.level = frozenset()
 
     @staticmethod
     def _edges():
@@ -180,6 +180,21 @@ class World:
             a = e.get_attributes()
             out.setdefault(a['trigger'], set()).add((a['source'], a['dest']))
         return out
+
+    def _build(self, *a):
+        self.calls.append('schedule.build')
+        schedule.que = []  # the real build starts a new queue
+
+    def actual_level(self):
+        """the work flags as the real modules hold them now (load() clears the farm, build() the queue)"""
+        lv = set()
+        if schedule.que:
+            lv.add('q')
+        if schedule.view_doing():
+            lv.add('d')
+        if farm._busy:
+            lv.add('b')
+        return frozenset(lv)
 
     def _sleep(self, _s):
         raise Block()
@@ -209,23 +224,31 @@ class World:
     def _changed(self, *a, **k):
         self.trans.append((self.last, self.fsm.state))
         if self.fsm.state == 'updating' and self.last == 'running':
-            self.updates.append((self.level, self.fsm.priority))
+            self.updates.append((self.actual_level(), self.fsm.priority))
         self.last = self.fsm.state
 
     # ---- environment: how much work there is ------------------------------------
     def set_level(self, level):
-        """0 idle; 1 queue non-empty, nothing executing; 2 something executing but no
-        worker busy (units waiting in the farm queue); 3 a worker is busy"""
-        self.level = level
+        """work = set of flags: 'q' queue non-empty, 'd' something executing, 'b' a worker busy.
+        Every combination is reachable (a purge can empty the queue while a unit is still at a
+        worker), so the three are independent; an int n means the first n of q, d, b"""
+        if isinstance(level, int):
+            level = frozenset('qdb'[:level])
+        self.level = frozenset(level)
         del farm._busy[:]
         farm._time.clear()
         schedule.que = []
-        if level >= 1:
-            schedule.que = [FakeNode('ta.a', level >= 2)]
-        if level >= 3:
-            farm._busy.append('ta.a[T]')
+        if 'q' in self.level or 'd' in self.level:
+            node = FakeNode('ta.a', 'd' in self.level)
+            if 'q' in self.level:
+                schedule.que = [node]
+        # view_doing() looks at the queue: "executing" needs the running node in it
+        if 'd' in self.level and 'q' not in self.level:
+            self.level = self.level - {'d'}
+        if 'b' in self.level:
             import datetime
 
+            farm._busy.append('ta.a[T]')
             farm._time['ta.a[T]'] = datetime.datetime.now()
 
     # ---- events -----------------------------------------------------------------
